@@ -527,10 +527,6 @@ impl Default for PositionIndex {
 }
 
 impl PositionIndex {
-    //Returns an iterator over all positions in in index, in sorted order
-    pub fn keys(&self) -> btree_map::Keys<usize, PositionIndexItem> {
-        self.0.keys()
-    }
     pub fn iter(&self) -> btree_map::Iter<usize, PositionIndexItem> {
         self.0.iter()
     }
